@@ -197,7 +197,9 @@ def coq_check(c, r):
     if r.get("err") or r.get("panic"):
         return None
     if k == "c11.cc":
-        return "check_cc %s %s %s %s" % (coq(T(c["c0"])), coq(T(c["c1"])), coq([T(p) for p in r["i01"]]), coq([T(p) for p in r["i10"]]))
+        iv = None if r["interval"] is None else Some((r["interval"][0], r["interval"][1]))
+        return "both (check_cc %s %s %s %s) (check_cc_interval %s %s %s)" % (
+            coq(T(c["c0"])), coq(T(c["c1"])), coq([T(p) for p in r["i01"]]), coq([T(p) for p in r["i10"]]), coq(T(c["c0"])), coq(T(c["c1"])), coq(iv))
     if k == "c11.tangent":
         rt = None if r["tangent"] is None else Some((T(r["tangent"][0]), T(r["tangent"][1])))
         ro = None if r["outer"] is None else Some(((T(r["outer"][0][0]), T(r["outer"][0][1])), (T(r["outer"][1][0]), T(r["outer"][1][1]))))
